@@ -12,6 +12,19 @@ from .engine import PI, simp
 PI_AX = [PI > z3.RealVal('3.14159265358979'), PI < z3.RealVal('3.14159265358980')]
 
 
+def _exp_bounds():
+    import fractions
+    import math
+    out = {}
+    for k_ in range(-9, 10):
+        v = fractions.Fraction(math.exp(k_))
+        out[k_] = (z3.RealVal(str(v * fractions.Fraction(999999, 1000000))), z3.RealVal(str(v * fractions.Fraction(1000001, 1000000))))
+    return out
+
+
+_EXP_BOUNDS = _exp_bounds()
+
+
 def _eq0(d):
     d = simp(d)
     return z3.is_rational_value(d) and d.numerator_as_long() == 0
@@ -105,6 +118,10 @@ def tf_axioms(ctx, taylor=True, pairs=True, level=2):
             ax.append(z3.Implies(a == A, z3.And(s == u, c >= 0)))
     for E, a in byf.get('exp', []):
         ax += [E > 0, E >= 1 + a, z3.Implies(a == 0, E == 1), z3.Implies(a < 1, E * (1 - a) <= 1)]
+        # coarse enclosures e^k for integer breakpoints k in [-9, 9] (monotonicity): keeps E within a factor e of its value
+        for k_ in range(-9, 10):
+            lo, hi = _EXP_BOUNDS[k_]
+            ax += [z3.Implies(a <= k_, E <= hi), z3.Implies(a >= k_, E >= lo)]
         if taylor:
             a2 = a * a
             ax += [z3.Implies(a >= 0, E >= 1 + a + a2 / 2 + a2 * a / 6),
